@@ -32,6 +32,7 @@ type Obligation struct {
 	Output  string
 	IsCover bool // cover query: must be satisfiable
 	Extra   []string // obligation-local declarations and instances
+	Inst      []string // heuristic instances of quantified assumptions (left out of the lean portfolio query)
 }
 
 type HeapInfo struct {
@@ -105,6 +106,9 @@ type VC struct {
 	frameFacts []*FrameFact
 	qfacts    []*QFact
 	witnesses []*Witness
+	skolemFns []*SkolemFn
+	atCalleeEnsures string // set while the ensures clauses of a callee are assumed at a call site
+	refTerms  map[string]bool // skolem constants / witnesses that stand for typed references
 	deltas    []Term
 	sortDecls *persistDecls
 }
@@ -401,6 +405,10 @@ func (vc *VC) havocAllHeaps(st *State) {
 			// declared immutable: unknown callees are assumed not to write
 			// fields of this type (listed assumption)
 			vc.assumes["objects of the types declared immutable in the contract files are not written by unknown (dynamic / interface / external) callees"] = true
+			continue
+		}
+		if vc.specs.isSetGhostHeap(n) {
+			vc.assumes["ghost variables assigned by set clauses change only where a set clause says so (unknown callees do not call back into functions whose contracts carry set clauses)"] = true
 			continue
 		}
 		if vc.specs.isPrivateHeap(n) {
